@@ -616,6 +616,44 @@ class LAX:
       inv[pos] = canon
     return out.transpose(inv)
 
+  @staticmethod
+  def conv_transpose(lhs, rhs, strides, padding, rhs_dilation=None,
+                     dimension_numbers=None, transpose_kernel=False, precision=None,
+                     preferred_element_type=None, use_consistent_padding=False):
+    """jax.lax.conv_transpose (documented semantics): a stride-1 convolution of the
+    input dilated by `strides`, padded with the transpose of the forward padding;
+    default layout N..C / ..IO / N..C"""
+    lhs, rhs = _a(lhs), _a(rhs)
+    nd = lhs.ndim - 2
+    assert dimension_numbers is None
+    rd = tuple(rhs_dilation) if rhs_dilation else (1,) * nd
+    if isinstance(padding, str):
+      pads = []
+      for i in range(nd):
+        k = (rhs.shape[i] - 1) * rd[i] + 1
+        s = strides[i]
+        if padding == 'SAME':
+          pad_len = k + s - 2
+          pad_a = k - 1 if s > k - 1 else -(-pad_len // 2)
+        elif padding == 'VALID':
+          pad_len = k + s - 2 + max(k - s, 0)
+          pad_a = k - 1
+        else:
+          raise ValueError(padding)
+        pads.append((pad_a, pad_len - pad_a))
+    else:
+      pads = [tuple(p) for p in padding]
+    if transpose_kernel:
+      for i in range(nd):
+        rhs = JNP.flip(rhs, i)
+      rhs = JNP.swapaxes(rhs, nd, nd + 1)
+
+    class _DN:
+      lhs_spec = (0, nd + 1) + tuple(range(1, nd + 1))
+      rhs_spec = (nd + 1, nd) + tuple(range(nd))
+      out_spec = (0, nd + 1) + tuple(range(1, nd + 1))
+    return LAX.conv_general_dilated(lhs, rhs, (1,) * nd, pads, tuple(strides), rd, _DN)
+
 
 class NN:
   @staticmethod
@@ -697,6 +735,15 @@ def validate(seed=0, n=3):
               LAX.conv_general_dilated(img, ker, st, pad, ld, rd, dn),
               lax.conv_general_dilated(jnp.asarray(img), jnp.asarray(ker), st, pad,
                                        ld, rd, dn), 1e-4)
+    seq, ker1 = r(2, 4, 2), r(3, 2, 3)
+    for pad in ('SAME', 'VALID', [(1, 2)]):
+      for st, rd, tk in ((1, 1, False), (2, 1, False), (3, 2, True), (2, 2, True),
+                         (4, 1, False), (1, 2, True)):
+        kk = np.swapaxes(ker1, 1, 2) if tk else ker1
+        check('conv_transpose %r %r %r %r' % (pad, st, rd, tk),
+              LAX.conv_transpose(seq, kk, (st,), pad, (rd,), None, tk),
+              lax.conv_transpose(jnp.asarray(seq), jnp.asarray(kk), (st,), pad, (rd,),
+                                 None, tk), 1e-4)
     ker_g = r(2, 2, 1, 4)
     check('conv groups', LAX.conv_general_dilated(img, ker_g, (1, 1), 'SAME',
                                                   None, None, dn, 2),
